@@ -253,6 +253,13 @@ def extra_cases():
         if not (isinstance(a, tuple) and opt in a[1]) or not (isinstance(b, tuple) and opt in b[1]):
             bad.append((f"{opt} = true must be rejected naming the option in both formats", {"fpm.toml": a if isinstance(a, tuple) else repr(getattr(a, opt)), "project file": b if isinstance(b, tuple) else repr(getattr(b, opt))},
                         f"errors mentioning '{opt}'"))
+    # the keys of a table option (alias, external, extra_mods) are the user's names: kept as written in every format
+    a, d, _ = _run(md_meta="alias: ProjName = demo\n       lower = x\nexternal: RemoteLib = https://example.org/lib\n")
+    b, d2, _ = _run(toml='alias = { ProjName = "demo", lower = "x" }\nexternal = { RemoteLib = "https://example.org/lib" }\n')
+    ka = a if isinstance(a, tuple) else (sorted(k for k in a.alias if k in ("ProjName", "projname", "lower")), sorted(a.external))
+    kb = b if isinstance(b, tuple) else (sorted(k for k in b.alias if k in ("ProjName", "projname", "lower")), sorted(b.external))
+    if ka != kb or ka != (["ProjName", "lower"], ["RemoteLib"]):
+        bad.append(("keys of alias / external as written", {"project file": ka, "fpm.toml": kb}, (["ProjName", "lower"], ["RemoteLib"])))
     # a number option takes an integer literal and nothing else, in both formats
     for lit in ("4.5", "2.0", "1e3"):
         a, d, _ = _run(md_meta=f"max_frontpage_items: {lit}\n")
